@@ -45,7 +45,7 @@ RECURSIVE Build(_, _)
 \* text of values k.. with their separators: tr[1] = lead, tr[k+1] = after value k (final for the last)
 Build(k, n) ==
   IF k > n THEN <<>>
-  ELSE Print(Values[vs[k]], D.po) \o (IF k = n THEN Final[tr[n + 1]] ELSE Trivia[tr[k + 1]]) \o Build(k + 1, n)
+  ELSE PrintDatum(Values[vs[k]], D.po) \o (IF k = n THEN Final[tr[n + 1]] ELSE Trivia[tr[k + 1]]) \o Build(k + 1, n)
 Text == Lead[tr[1]] \o Build(1, Len(vs))
 
 Expected == [k \in 1..Len(vs) |-> Fold(Values[vs[k]], D.po, D.ro)]
